@@ -206,6 +206,59 @@ def make_lines(variant):
     return fn
 
 
+_TOPO = {}
+
+
+def _topo_net(kind):
+    """the same 3-bus network with a line ending at an out-of-service bus (or behind an open switch) in two orientations"""
+    if kind not in _TOPO:
+        nets = []
+        for swapped in (False, True):
+            net = pp.create_empty_network(sn_mva=10.)
+            b0, b1, b2 = (pp.create_bus(net, 20.) for _ in range(3))
+            pp.create_ext_grid(net, b0)
+            pp.create_line_from_parameters(net, b0, b1, 2., 0.1, 0.3, 10., 1.)
+            f, t = (b2, b1) if swapped else (b1, b2)
+            pp.create_line_from_parameters(net, f, t, 3., 0.2, 0.25, 20., 1.)
+            pp.create_load(net, b1, 1., 0.5)
+            if kind == "out_of_service_bus":
+                net.bus.loc[b2, "in_service"] = False
+            else:
+                pp.create_switch(net, b2, 1, "l", closed=False)
+            pp.runpp(net, numba=False, lightsim2grid=False, check_connectivity=False)
+            nets.append(net)
+        _TOPO[kind] = nets
+    return _TOPO[kind]
+
+
+def make_swap_topology(kind):
+    """from/to swap of a line whose far end is an out-of-service bus / behind an open switch: the complete conversion (real _pd2ppc with the
+    switch and out-of-service-bus handling) must hand the solver the same bus admittance matrix for both orientations"""
+    def fn(ctx):
+        p2 = ctx.load("pandapower.pd2ppc")
+        mY = ctx.load("pandapower.pypower.makeYbus")
+        V = {c: ctx.var(c, *r) for c, r in {"r_ohm_per_km": (0.01, 1.), "x_ohm_per_km": (0.01, 1.), "c_nf_per_km": (1., 300.), "length_km": (0.1, 50.)}.items()}
+        Ys = []
+        for net0 in _topo_net(kind):
+            net = copy.deepcopy(net0)
+            for c, v in V.items():
+                setcol(ctx, net.line, c, [net.line[c].values[0], v])
+            net._options["recycle"] = None
+            ppc, ppci = p2._pd2ppc(net)
+            Ybus, Yf, Yt = mY.makeYbus(ppci["baseMVA"], ppci["bus"], ppci["branch"])
+            Ys.append(Ybus.toarray() if hasattr(Ybus, "toarray") else np.asarray(Ybus))
+        A, B = Ys
+        ctx.true("same_number_of_buses_in_the_solved_network", A.shape == B.shape)
+        if A.shape != B.shape:
+            return
+        for i in range(A.shape[0]):
+            for j in range(A.shape[1]):
+                a, b = A[i, j], B[i, j]
+                ctx.close(f"Ybus[{i},{j}].re", a.real, b.real, 1e-9)
+                ctx.close(f"Ybus[{i},{j}].im", a.imag, b.imag, 1e-9)
+    return fn
+
+
 def instances(tier):
     out = [Inst("base_line", make_base("line"), nvars=24, samples=2, meta=dict(transformation="net.sn_mva", element="line")),
            Inst("base_impedance", make_base("impedance"), nvars=24, samples=2, meta=dict(transformation="net.sn_mva", element="impedance")),
@@ -216,6 +269,9 @@ def instances(tier):
            Inst("out_of_service_load", make_pq("out_of_service"), nvars=30, samples=2, meta=dict(transformation="add out-of-service element")),
            Inst("parallel_lines", make_lines("parallel"), nvars=24, samples=2, meta=dict(transformation="parallel=2 vs two lines")),
            Inst("swap_line", make_lines("swap"), nvars=24, samples=2, meta=dict(transformation="from/to swap"))]
+    for kind in ("out_of_service_bus", "open_switch"):
+        out.append(Inst(f"swap_line_at_{kind}", make_swap_topology(kind), nvars=16, samples=2, raises=(UserWarning,),
+                        meta=dict(transformation="from/to swap", topology=kind)))
     if tier == "thorough":
         out.append(Inst("base_trafo_t", make_base("trafo_t"), nvars=30, samples=2, timeout_ms=120000, meta=dict(transformation="net.sn_mva", element="trafo t")))
     return out
